@@ -30,7 +30,7 @@ ASSUMPTIONS = ['numpy comparison/indexing is trusted', 'astropy SigmaClip is tru
 
 def plan(tier):
     if tier == 'thorough':
-        return dict(shards=16, cases=12000, timeout=1500, budget_s=600)
+        return dict(shards=16, cases=60000, timeout=2400, budget_s=900)
     return dict(shards=4, cases=900, timeout=600, budget_s=120)
 
 
